@@ -507,3 +507,34 @@ def check_histories(chk, module, cfg, hist, tag, dev_cfgs=None, batch=150, timeo
                 continue
         chk.violation(what, replay)
     return n_ok, rejected
+
+
+# ------------------------------------------------------------------------------------------------
+# Replay of a stored violation (tools/vcheck <ID> --replay <file>)
+
+def replay_file(prop, path):
+    """Re-evaluates a replay file written by Check.violation().  A stored history is validated again
+    by TLC against the trace spec it was rejected by (exit 1 + VIOLATION line if still rejected); for a
+    stored case the harness invocation that produced it is printed so it can be re-run."""
+    obj = json.load(open(path))
+    case = obj.get("case", {})
+    log("replay of %s: %s" % (path, obj.get("what")))
+    if isinstance(case, dict) and case.get("history") is not None and case.get("spec"):
+        h = case["history"]
+        acc, maxl, r = validate_batch(case["spec"], case["cfg"], list(h) + [{"e": "reset"}], "replay")
+        if acc:
+            log("history is accepted by %s/%s on this tree's specification" % (case["spec"], case["cfg"]))
+            return 0
+        lo = max(0, maxl - 6)
+        for i, rec in enumerate(h[lo:maxl + 1]):
+            log("  %s %d %s" % ("=>" if lo + i + 1 == maxl + 1 else "  ", lo + i + 1, json.dumps(rec)))
+        log("VIOLATION property=%s replay=%s   # rejected by %s after record %d (first record TLC cannot "
+            "explain is marked)" % (prop, path, case["spec"], maxl))
+        if case.get("origin"):
+            log("recorded by: %s" % json.dumps(case["origin"]))
+        return 1
+    log(json.dumps(case, indent=1)[:6000])
+    if isinstance(case, dict) and case.get("origin"):
+        log("recorded by: %s" % json.dumps(case["origin"]))
+    log("VIOLATION property=%s replay=%s   # stored case (re-run the check to re-evaluate it on this tree)" % (prop, path))
+    return 1
